@@ -7,6 +7,7 @@
   `PFile.synced` is the length that is durable. The current segment is the last file.
 -/
 import Pogreb.SegFS
+import Pogreb.Generated.Sections
 import Pogreb.Lemmas.SegFS
 import Pogreb.Lemmas.Compaction
 namespace Pogreb
@@ -324,5 +325,14 @@ theorem C09_pinned_close_not_durable :
     ∃ effs : List CloseEff, (effs.foldl CState.apply ⟨[], true⟩).lock = false ∧
       (effs.foldl CState.apply ⟨[], true⟩).pending ≠ [] := by
   exact ⟨[.write 0, .removeLock], by decide, by decide⟩
+
+/-- The order the abstract Close above assumes, read off the source (regenerated on every run): the
+lock is released exactly once, as the LAST file-system call `DB.Close` reaches, and every sync comes
+before it. -/
+theorem C09_unlock_is_the_last_call :
+    Generated.closeFsCalls.getLast? = some "fs.Unlock" ∧
+    (Generated.closeFsCalls.filter (· == "fs.Unlock")).length = 1 ∧
+    4 ≤ (Generated.closeFsCalls.filter (· == "fs.Sync")).length := by
+  decide
 
 end Pogreb
